@@ -52,3 +52,6 @@ def run(ctx, R):
     interpsem.rule_fp_exec(ctx, R, astq.Facts(ctx, 'K1'), F)
     x86hsem.rule_mem_hsem(ctx, R)
     x86hsem.rule_fp_hsem(ctx, R)
+    rvhsem.rule_mem_hsem(ctx, R, 'rvv')
+    rvhsem.rule_mem_hsem(ctx, R)
+    a64hsem.rule_mem_hsem(ctx, R)
